@@ -7,6 +7,7 @@ import (
 // c11Oracle: both backends produce exactly refsem's observation for control-flow programs; the
 // VM additionally leaves no residue at normal exit.
 func c11Oracle(pc progCase, r *Result) {
+	markVolatile(pc, r)
 	a := Analyze(map[string]string{"main": pc.P.Text}, true)
 	if a.Obs.Class == "HOST-PANIC" {
 		r.Note("analyzer-panic(C05)", 1)
